@@ -169,9 +169,26 @@ func checkC15(c c15Case) verdict {
 		return ok(true, append(labels, "rejected")...)
 	case ref.Unclassified:
 		if err == nil {
-			_ = su.Config()
+			cfg := su.Config()
 			_ = su.String()
 			_ = su.Validate()
+			// one thing an unclassified string still says unmistakably: a digit count written with leading zeros is that
+			// decimal number (the suite grammar knows no other radix) — accepted as 8 when it says 010, it is misread
+			if cp := strings.Split(strings.Split(c.Name+"::", ":")[1], "-"); len(cp) == 3 && len(cp[2]) > 1 && cp[2][0] == '0' && rd.Why == "" {
+				dec := 0
+				for _, ch := range cp[2] {
+					if ch < '0' || ch > '9' {
+						dec = -1
+						break
+					}
+					if dec < 1000 {
+						dec = dec*10 + int(ch-'0')
+					}
+				}
+				if dec >= 0 && cfg.Digits != dec {
+					return bad(true, labels, "NewRawSuite(%q) reads the digit count %q as %d; written in decimal it is %d", c.Name, cp[2], cfg.Digits, dec)
+				}
+			}
 		}
 		return ok(false, labels...)
 	}
@@ -323,6 +340,15 @@ func genC15Mut(t *rapid.T) c15Case {
 		parts[0] = rapid.SampledFrom([]string{"OCRA-2", "OCRA-10", "OCRA-1x", "OCRA", "", "OCRA-11", "XOCRA-1", "OCRA-1 ", "OCRA_1"}).Draw(t, "ver")
 		return c15Case{Name: strings.Join(parts, ":"), Expect: "malformed"}
 	case 2: // crypto
+		if rapid.IntRange(0, 2).Draw(t, "digitsSpelt") == 0 {
+			// the digit count as another language's integer parser would read it: radix prefixes, separators, signs (not
+			// decimal numbers: malformed), and leading zeros (a decimal number all the same: if accepted, it is that number)
+			d := rapid.SampledFrom([]string{"0x8", "0X8", "0xA", "0b110", "0o10", "1_0", "#8", "8.0", "1e1", "8 ", " 8", "٦", "６", "010", "012", "08", "06", "006", "0010"}).Draw(t, "digitsAs")
+			cp := strings.Split(parts[1], "-")
+			cp[len(cp)-1] = d
+			parts[1] = strings.Join(cp, "-")
+			return c15Case{Name: strings.Join(parts, ":"), Expect: "any"}
+		}
 		parts[1] = rapid.SampledFrom([]string{"TOTP-SHA1-6", "HOTP", "HOTP-SHA1", "HOTP-SHA3-6", "HOTP-SHA384-6", "HOTP-MD5-6", "HOTP-SHA1-x", "HOTP-SHA1-", "HOTP-SHA1-6-6", "HOTP-SHA-6", "HMAC-SHA1-6", "HOTP-ſHA1-6", "HOTPSHA1-6", "HOTP-SHA1-6x"}).Draw(t, "crypto")
 		return c15Case{Name: strings.Join(parts, ":"), Expect: "malformed"}
 	case 3, 4: // unknown token replaces / is appended
